@@ -2,7 +2,7 @@
 import json, os, re, sys
 from checklib import *
 
-FORM = {"0": "plain", "1": "compressed", "2": "other-circuit"}
+FORM = {"0": "plain", "1": "compressed", "2": "other-circuit", "3": "plain-keccak"}
 
 def main():
     a = std_args().parse_args()
